@@ -636,7 +636,7 @@ class PEval(object):
                     break
                 visits = dict(visits)
                 visits[nid] = visits.get(nid, 0) + 1
-                if visits[nid] > 64:
+                if visits[nid] > 300:
                     raise AnalysisBroken('peval: loop in %s does not fold (node line %d)' % (self.fname, node.line))
                 if node.kind == 'ret':
                     if node.x.kids:
